@@ -3,19 +3,20 @@ with the textbook model Model/Secp.v; ECDSA algebra proved under the group-law p
 import modeb
 
 SPEC = {
-    "uses_gen": True,
+    "uses_gen": ["Crypto"],
     "cmd": "c14",
     "budget": (150, 5000),
     "model_vos": ["Model/Secp.vo", "Model/SigAccept.vo"],
     "trusted_base": [
-        "premises of the Section GroupLaw theorems (NOT proved; no elliptic-curve library in the sandbox): prime p, prime n, "
-        "closure/associativity/commutativity of the chord-tangent addition on curve points, n*G = O, "
-        "and correctness of the square root c^((p+1)/4) on squares",
+        "premises of the ECDSA theorems (NOT proved; no elliptic-curve / primality-certificate library in the sandbox): "
+        "prime p, prime n (Znumtheory.prime), padd_associative (associativity of the chord-tangent addition on curve points), "
+        "sqrt_correct (c^((p+1)/4) is a square root of every square; used by recover_sign / ecdh_sym / compress_parse only). "
+        "Proved, not assumed: closure, commutativity, identity/inverses, n*G = O (kernel computation + jacobian_correct), Jacobian = affine",
         "the optimised field/group code (10x26-bit limbs, wNAF, endomorphism split, precomputed tables) is compared with the model, not proved",
         "translator tables_crypto.go (secp256k1 constants -> Gen/SecpConsts.v)",
     ],
     "assumptions": [
-        "group law of y^2 = x^3 + 7 over F_p and primality of p, n are premises of verify_sign / recover_sign / ecdh_sym / negated_sig_verifies",
+        "prime p, prime n, padd_associative (and sqrt_correct where decompression is involved) are premises of verify_sign / recover_sign / ecdh_sym / negated_sig_verifies",
         "Signature.Sign is called with 0 < nonce (the only caller, secp256k1.Sign, draws 0 < nonce < n)",
     ],
 }
